@@ -250,8 +250,11 @@ REFACTORINGS = {
     "R13": "C08,C17", "R14": "C16,C17,C10",
 }
 for _r, _props in REFACTORINGS.items():
-    CORPUS.append({"name": f"refactoring-{_r}", "props": _props.split(","), "kind": "benign", "edits": [],
+    CORPUS.append({"name": f"refactoring-{_r}", "props": ALL.split(","), "kind": "benign", "edits": [],
                    "diff": f"benign/{_r}/refactor.diff"})
+    # second pass over the same regions (round B2: structural rewrites - helpers, NamedTuples, match, walrus, generators)
+    CORPUS.append({"name": f"refactoring-B2-{_r}", "props": ALL.split(","), "kind": "benign", "edits": [],
+                   "diff": f"benign/B2-{_r}/refactor.diff"})
 
 # ---------------------------------------------------------------- the independently seeded breaking changes (seeded/<id>/patch.diff):
 # the target property's check must report each of them
